@@ -138,9 +138,21 @@ def encode_inferred(value: Any):
     return None if _has_other(t) else t
 
 
+def _too_deep(x: Any, d: int = 0) -> bool:
+    if d > 3:
+        return True
+    if isinstance(x, (list, tuple, set)):
+        return any(_too_deep(e, d + 1) for e in x)
+    if isinstance(x, dict):
+        return any(_too_deep(k, d + 1) or _too_deep(v, d + 1) for k, v in x.items())
+    return False
+
+
 def _has_other(t: Any) -> bool:
     if isinstance(t, dict):
         if t.get("c") == "other" or t.get("v") == "other" and t.get("c") == "type":
+            return True
+        if t.get("k") == "typevar":       # Member is not defined on unsolved type variables
             return True
         return any(_has_other(v) for v in t.values())
     if isinstance(t, list):
@@ -189,9 +201,11 @@ def observe_case(arg: tuple[int, dict]) -> list[dict]:
             _state["n"] += 1
             if _state["n"] > STEP_LIMIT:
                 raise _Stop()
-            obj = codec.py_to_obj(value)
             inf = inferred[i]
-            if inf is not None and not _has_other(obj):
+            if inf is None or len(_events) >= 80 or _too_deep(value):
+                return value
+            obj = codec.py_to_obj(value)
+            if not _has_other(obj):
                 _events.append([i, obj, inf])
             return value
 
@@ -220,8 +234,9 @@ def judge(check: core.Check, cases: list[dict], label: str) -> None:
         o = by_tid[tid]
         for v in set(vs):
             if v.startswith("viol:"):
-                clause, _, node = v[5:].partition(":")
-                bad = [e for e in o["evals"] if str(e[0]) == node][:1]
+                clause, _, idx = v[5:].partition(":")
+                bad = [o["evals"][int(idx) - 1]]
+                node = str(bad[0][0])
                 key = core.canon({"src": o["src"].split("def f(")[1], "node": o["nodes"].get(node), "args": o["args"]})
                 check.violation(key, clause, {"case": {**o["case"], "argsx": [o["args"][0]], "argsy": [o["args"][1]]},
                                               "src": o["src"], "args": o["args"], "node": o["nodes"].get(node),
